@@ -24,7 +24,7 @@ RULE = ("one `whatshap phase` CLI run over a generated pedigree scenario (1-3 ch
         "unrelated samples, random subset of --output-read-list/--changed-genotype-list/--recombination-list, "
         "with/without --ped (also with ignorable / reordered PED lines), --distrust-genotypes(+genotype errors), --chromosome/--sample "
         "selections incl. a selection that matches no chromosome, list paths that already exist, both tags). "
-        "Non-trivial: at least two (chromosome, family) instances were processed and at least one requested list has "
+        "plus in-process cases (round 10): generated PED texts for PedReader, sample selections, inputs of find_recombination / write_recombination_list. Non-trivial: at least two (chromosome, family) instances were processed and at least one requested list has "
         "data rows; distinct = distinct (generator seed, options)")
 MANIFEST = dict(
     text="Lean 4 theorems about a state-machine model of the chromosome x family loop of run_whatshap over the three "
